@@ -24,6 +24,11 @@ def m_findall(ex, st, fn, args, kw):
     yield st, UFL(ELEM, (lambda i, e=e, k=k: child(e.z, k, i)), n)
 
 
+def m_findall_method(ex, st, recv, args, kw):
+    """element.findall(xpath, namespaces) called directly (the TODO in rowio._findall): the same observer as through the wrapper"""
+    yield from m_findall(ex, st, None, [recv] + list(args), kw)
+
+
 def m_zipfile(ex, st, fn, args, kw):
     for name in ("BadZipFile", "OSError", "EOFError"):
         sb = st.copy(); sb.ghost["fault"] = True; yield sb, Raise(ex.new_builtin_exc(sb, name, ["cannot open archive"]))
@@ -132,7 +137,7 @@ def unit_ods_rows():
                 if b: s2.ghost["last_int"] = Sym(INT, iv(v)); yield s2, Sym(INT, iv(v))
                 else: s2.ghost["bad_repeat"] = True; yield s2, Raise(ex.new_builtin_exc(s2, "ValueError", ["invalid literal"]))
         def before_raise_lt1(ex_, s): s.ghost["bad_repeat"] = True
-        cal = {"rowio._findall": ModelContract(m_findall), "builtin:zipfile.ZipFile": m_zipfile, "builtin:closing": m_closing, "ref:Zip.read": m_zip_read, "ref:Zip.close": m_zip_close,
+        cal = {"rowio._findall": ModelContract(m_findall), "abs:Elem.findall": AbsContract(m_findall_method), "builtin:zipfile.ZipFile": m_zipfile, "builtin:closing": m_closing, "ref:Zip.read": m_zip_read, "ref:Zip.close": m_zip_close,
                "builtin:io.BytesIO": m_bytesio, "builtin:ElementTree.parse": m_parse, "ref:Tree.getroot": m_getroot, "absattr:Elem.attrib": absattr_attrib, "ref:Attrib.get": m_attrib_get,
                "abs:Elem.find": AbsContract(m_find), "absattr:Elem.text": absattr_text, "abslen:Elem": abslen_elem, "builtin:int": m_int}
         A = ["A-XML: ElementTree findall/find/attrib/text are abstract observers of an arbitrary tree; zipfile.ZipFile / read / ElementTree.parse raise (any exception) for non-zip files, missing members, malformed XML",
